@@ -103,6 +103,7 @@ def c02(rep, env):
         # a clone must carry on the same recurrence (chaining value copied field by field)
         IR.check_clone_bodies(rep, fb, crates={"cbc", "pcbc", "ige"})
     per_config(rep, env, f)
+    BM.run_term_controls(rep, ["def."])
 
 
 def c03(rep, env):
@@ -170,6 +171,7 @@ def c07(rep, env):
         MI.check_plumbing(rep, fb)
         MI.check_overrides(rep, fb)
     per_config(rep, env, f)
+    BM.run_term_controls(rep, ["par."])
 
 
 def c08(rep, env):
@@ -245,6 +247,7 @@ def c12(rep, env):
         MI.check_plumbing(rep, fb)
         only(rep, lambda r: CM.check_helpers(r, fb), pre("helpers.par-group.inplace"))
     per_config(rep, env, f)
+    BM.run_term_controls(rep, ["alias."])
 
 
 def c13(rep, env):
@@ -271,6 +274,8 @@ def c14(rep, env):
         CM.check_constructors(rep, fb)
         BC.check_definition(rep, fb)
         BC.check_init(rep, fb)
+        # a buffered instance rebuilt from its exported (block, position) must stay the same front-end
+        BC.check_state(rep, fb)
         MI.check_ofb_one_backend(rep, fb)
         MI.check_aliases(rep, fb)
         SM.check_ctr_aliases(rep, fb)
@@ -327,17 +332,17 @@ PROOF_NOTE = ("Static decision over the generic MIR of /repo's current tree: ker
 
 REGISTRY = {
     "C01": {"run": c01, "level": "proof", "floors": {"inv.step.out": 6, "inv.cts.roundtrip": 36, "inv.buf.out": 2, "inv.stream": 5}},
-    "C02": {"run": c02, "level": "proof", "floors": {"def.out": 6, "def.state": 8, "par.closed-form": 2, "plumb.state-borrowed": 6}},
+    "C02": {"run": c02, "level": "proof", "floors": {"def.out": 6, "def.state": 8, "par.closed-form": 2, "plumb.state-borrowed": 6, "control.def": 5}},
     "C03": {"run": c03, "level": "proof", "floors": {"def.out": 7, "def.state": 7, "par.closed-form": 2, "enc-only.kernel": 8, "buf.def": 12}},
     "C04": {"run": c04, "level": "proof", "floors": {"ctr.layout": 6, "ctr.ks.block": 6, "par.closed-form": 12, "ctr.resume": 6, "ctr.alias": 6}},
     "C05": {"run": c05, "level": "proof", "floors": {"cts.layout": 72, "cts.gate.exact": 12, "helpers.one-block": 4, "cts.init": 6}},
     "C06": {"run": c06, "level": "proof", "floors": {"belt.init": 1, "belt.ks.block": 1, "par.closed-form": 2}},
-    "C07": {"run": c07, "level": "proof", "floors": {"par.no-override": 11, "par.closed-form": 18, "helpers.par-group": 7}},
+    "C07": {"run": c07, "level": "proof", "floors": {"par.no-override": 11, "par.closed-form": 18, "helpers.par-group": 7, "control.par": 4}},
     "C08": {"run": c08, "level": "proof", "floors": {"buf.def": 12, "buf.chunk": 14, "def.out": 3, "ctr.ks.block": 6, "belt.ks.block": 1, "alias.wrapper": 8}},
     "C09": {"run": c09, "level": "proof", "floors": {"ivstate.export-public": 12, "ivstate.resume": 14, "ctr.resume": 6, "buf.state": 4}},
     "C10": {"run": c10, "level": "proof", "floors": {"pos.get": 7, "pos.set": 7, "pos.counter-type": 7, "pos.core": 12}},
     "C11": {"run": c11, "level": "other", "floors": {"rem.exact": 7, "ctr.ks.advance": 6, "belt.ks.advance": 1, "wrapper.check-dominates": 3, "rem.ofb-unbounded": 1}},
-    "C12": {"run": c12, "level": "proof", "floors": {"alias.same.out": 70, "alias.no-old-output": 70}},
+    "C12": {"run": c12, "level": "proof", "floors": {"alias.same.out": 70, "alias.no-old-output": 70, "control.alias": 4}},
     "C13": {"run": c13, "level": "proof", "floors": {"cts.no-panic": 72, "cts.gate.exact": 12, "cts.gate.no-side-effect": 12, "b2b": 80, "ivsize": 18, "panic.site-covered": 30}},
     "C14": {"run": c14, "level": "proof", "floors": {"cts.layout": 36, "buf.def": 12, "buf.init": 2, "ofb.one-backend": 1, "ofb.same-function": 2, "alias.wrapper": 8, "keyinit.blanket": 18}},
     "C15": {"run": c15, "level": "proof", "floors": {"dep.kind": 24, "ctr.ks.data-independent": 6}},
